@@ -121,6 +121,20 @@ def check(cx):
             cx.verdict(root in LATCH_UNDER_PAGER, r3, "latch-under-pager:" + root, c.where(), LATCH_UNDER_PAGER.get(root, ""),
                        "%s takes a blocking page latch while the pager lock is held; B-tree writers hold page latches and then "
                        "ask for the pager lock: opposite orders, two threads can deadlock" % root)
+    # a PAGER guard alive across a call into non-pager code that takes page latches is the inverse order
+    seen2 = set()
+    for hm, am, f, c, via in graph.get(("PAGER", "PAGE_LATCH"), []):
+        ok_via = via == "direct" and (f.root or f.id) in pager_scope or via in pager_scope or \
+            (via in p.fns and (p.fns[via].root or via) in pager_scope)
+        key = "pager-held-across:%s" % (f.root or f.id)
+        if ok_via or key in seen2:
+            continue
+        seen2.add(key)
+        cx.bad(r3, key, c.where(), "%s keeps the pager lock while calling %s, which blocks on a page latch; everywhere else page "
+               "latches are taken first and the pager lock second: with two threads on one tree this deadlocks" % (f.id, via))
+    if not seen2:
+        cx.ok(r3, "pager-held-across:none", "", "the pager guard is never alive across latch-taking code outside the pager (%d sites checked)" % len(graph.get(("PAGER", "PAGE_LATCH"), [])))
+
     # the checkpoint inversion is known and only advisory
     cx.advisory(r3, "checkpoint-takes-every-frame", p.fn(K.PAGER_FLUSH).where() if K.PAGER_FLUSH in p.fns else "",
                 "D24: Pager::flush takes the write latch of every cached frame, pinned or not, while holding the pager lock; a "
@@ -177,3 +191,9 @@ def check(cx):
             rc = [c for c in h.calls() if c.callee.endswith("Receiver::<T>::recv")]
             cx.verdict(bool(rc) and bool(h.reachable(rc[0].term["to"]) & h.err_blocks()) if rc else False, r5, name + ":recv-error-propagated", h.where(),
                        "a closed channel is reported as an error", "recv errors are not propagated")
+
+
+    # ---- C14.6 commit order vs snapshot bound (construct shared with C04.6) ------------------------------------
+    from . import c04
+    cx.include(c04, {"C04.6"}, "C14.6", "shared with C04.6: the persisted last-committed id (the snapshot upper bound) only moves "
+               "forward, whatever order concurrent transactions commit in", floor=1)
